@@ -114,6 +114,11 @@ struct Conc {
     target: String,
     onup: bool,
     headers: Vec<(String, Vec<u8>)>,
+    /// The request repeats a gated header in a way the property text does not settle (it speaks of
+    /// "a header", not of several lines of it): such a request is not judged against the text, only
+    /// for coherence (see `oracle`) and against the model. Set for the new repeated-line rows only;
+    /// the older duplicated rows keep being judged by the first line.
+    open: bool,
 }
 
 /// (status, sorted headers, body) as one line: `<status> <name>=<hex>,..|- <bodyhex>`
@@ -172,9 +177,56 @@ impl Conc {
             && self.cfg.psk.as_deref().is_none_or(|p| self.first("x-penguin-psk") == Some(p))
             && self.onup
     }
+    /// Is there any reading of repeated lines (first, last, some line) under which the request is a
+    /// valid upgrade request? Everything but the repeated headers is read as in `reference_upgrade`.
+    fn some_reading_upgrades(&self) -> bool {
+        let some = |name: &str, want: &[u8], fold: bool| {
+            self.headers.iter().any(|(n, v)| n == name && if fold { eq_ci(v, want) } else { v.as_slice() == want })
+        };
+        self.method == "GET"
+            && self.path() == "/ws"
+            && some("connection", b"upgrade", true)
+            && some("upgrade", b"websocket", true)
+            && some("sec-websocket-version", b"13", true)
+            && some("sec-websocket-protocol", b"penguin-v7", true)
+            && self.first("sec-websocket-key").is_some()
+            && self.cfg.psk.as_deref().is_none_or(|p| some("x-penguin-psk", p, false))
+            && self.onup
+    }
+    /// What the property text says: `Some(must upgrade)`, or `None` when it does not settle the matter
+    /// (an `open` request with a gated header on several lines, valid under some reading of them).
+    fn upgrade_verdict(&self) -> Option<bool> {
+        let strict = self.reference_upgrade();
+        if !self.open {
+            return Some(strict);
+        }
+        let mut gated = vec!["connection", "upgrade", "sec-websocket-version", "sec-websocket-protocol"];
+        if self.cfg.psk.is_some() {
+            gated.push("x-penguin-psk");
+        }
+        let repeated = gated.iter().any(|g| self.headers.iter().filter(|(n, _)| n == g).count() > 1);
+        if !repeated {
+            Some(strict)
+        } else if self.some_reading_upgrades() {
+            None
+        } else {
+            Some(false)
+        }
+    }
     /// The whole response the property prescribes.
     fn reference(&self) -> String {
-        if self.reference_upgrade() {
+        self.reference_for(self.reference_upgrade())
+    }
+    /// The responses the property allows: one, or the two coherent ones where the text is open.
+    fn acceptable(&self) -> Vec<String> {
+        match self.upgrade_verdict() {
+            Some(up) => vec![self.reference_for(up)],
+            None => vec![self.reference_for(true), self.reference_for(false)],
+        }
+    }
+    /// The whole response the property prescribes for a request that must (not) be upgraded.
+    fn reference_for(&self, upgrade: bool) -> String {
+        if upgrade {
             let hs = vec![
                 ("connection".to_string(), b"upgrade".to_vec()),
                 ("upgrade".to_string(), b"websocket".to_vec()),
@@ -227,7 +279,7 @@ impl Conc {
             "psk_text": self.cfg.psk.as_ref().map(|p| String::from_utf8_lossy(p).into_owned()),
             "obfs": self.cfg.obfs,
             "not_found": hexd(&self.cfg.not_found),
-            "method": self.method, "target": self.target, "on_upgrade": self.onup,
+            "method": self.method, "target": self.target, "on_upgrade": self.onup, "text_open": self.open,
             "headers": self.headers.iter().map(|(n, v)| json!([n, hexd(v), String::from_utf8_lossy(v)])).collect::<Vec<_>>(),
         })
     }
@@ -249,6 +301,7 @@ impl Conc {
                 .iter()
                 .map(|h| Some((h[0].as_str()?.to_string(), unhex(h[1].as_str()?)?)))
                 .collect::<Option<Vec<_>>>()?,
+            open: v.get("text_open").and_then(Value::as_bool).unwrap_or(false),
         })
     }
 }
@@ -318,6 +371,9 @@ fn case_value(h: usize) -> Vec<u8> {
 }
 
 fn header_values(h: usize, var: u8) -> Vec<Vec<u8>> {
+    if var >= V_TABLE {
+        return table(h)[(var - V_TABLE) as usize].lines.clone();
+    }
     let ex = exact_value(h);
     match var {
         V_ABSENT => vec![],
@@ -345,7 +401,222 @@ fn variant_good(var: u8) -> bool {
     matches!(var, V_EXACT | V_CASE | V_DUP_GOOD_BAD)
 }
 
+// ---------------------------------------------------------------------------------------------
+// Near-miss values of the gated headers (variant codes `V_TABLE + i` / `P_TABLE + i`)
+// ---------------------------------------------------------------------------------------------
+
+/// What the property text says about an otherwise valid upgrade request that carries this value of
+/// one gated header. Written down by hand per entry (by construction of the value), independently of
+/// `Conc::reference_upgrade`, which decides from the bytes; the two are compared on every row.
+///   * version: valid iff the value is exactly `13`;
+///   * connection / upgrade / protocol: valid iff the WHOLE value equals the token up to ASCII case
+///     (no list parsing, no trimming, no Unicode case folding);
+///   * PSK: valid iff byte-for-byte equal.
+/// `Open`: the header is on several lines and the text does not say which line counts.
+#[derive(Clone, Copy, Debug, PartialEq, Eq)]
+enum Says {
+    Valid,
+    Invalid,
+    Open,
+}
+
+struct Nm {
+    name: String,
+    lines: Vec<Vec<u8>>,
+    says: Says,
+}
+
+const V_TABLE: u8 = 64;
+const P_TABLE: u8 = 64;
+
+fn one(name: &str, parts: &[&[u8]], says: Says) -> Nm {
+    Nm { name: name.to_string(), lines: vec![parts.concat()], says }
+}
+
+/// A literal value, named by its text.
+fn lit(text: &str) -> Nm {
+    Nm { name: format!("{text:?}"), lines: vec![text.as_bytes().to_vec()], says: Says::Invalid }
+}
+
+fn several(name: &str, lines: &[&[u8]]) -> Nm {
+    Nm { name: name.to_string(), lines: lines.iter().map(|l| l.to_vec()).collect(), says: Says::Open }
+}
+
+/// Near misses every wanted value `t` has: something before / after / inside it, list forms with
+/// another plausible member `other`, white space a `HeaderValue` can hold, bytes beyond ASCII, and
+/// the header on several lines. `fold`: the header is compared case-insensitively (else: exact bytes).
+fn common_near_misses(t: &[u8], other: &[u8], fold: bool) -> Vec<Nm> {
+    use Says::{Invalid, Valid};
+    let up = t.to_ascii_uppercase();
+    let low = t.to_ascii_lowercase();
+    let mut cap = low.clone();
+    let mut start = true;
+    for b in &mut cap {
+        if start {
+            *b = b.to_ascii_uppercase();
+        }
+        start = !b.is_ascii_alphanumeric();
+    }
+    // the last letter in the other case
+    let mut flip = t.to_vec();
+    if let Some(b) = flip.iter_mut().rev().find(|b| b.is_ascii_alphabetic()) {
+        *b ^= 0x20;
+    }
+    let mut v = vec![];
+    // (1) other spellings of the same letters: valid where case is folded, invalid where it is not
+    for (name, val) in [("upper-case", &up), ("lower-case", &low), ("capitalised", &cap), ("last-letter-other-case", &flip)] {
+        if val.as_slice() != t {
+            v.push(one(name, &[val], if fold { Valid } else { Invalid }));
+        }
+    }
+    // (2) the right value with something before / after it
+    v.push(one("x-prefixed", &[b"x", t], Invalid));
+    v.push(one("x-suffixed", &[t, b"x"], Invalid));
+    v.push(one("doubled", &[t, t], Invalid));
+    v.push(one("first-char-dropped", &[&t[1..]], Invalid));
+    v.push(one("quoted", &[b"\"", t, b"\""], Invalid));
+    // (3) list forms
+    v.push(one("list-right-first", &[t, b", ", other], Invalid));
+    v.push(one("list-right-last", &[other, b", ", t], Invalid));
+    v.push(one("list-nospace-right-first", &[t, b",", other], Invalid));
+    v.push(one("list-nospace-right-last", &[other, b",", t], Invalid));
+    v.push(one("list-right-twice", &[t, b", ", t], Invalid));
+    v.push(one("list-nospace-right-twice", &[t, b",", t], Invalid));
+    v.push(one("list-capitalised-right-last", &[other, b", ", &cap], Invalid));
+    v.push(one("trailing-comma", &[t, b","], Invalid));
+    v.push(one("leading-comma", &[b",", t], Invalid));
+    v.push(one("with-parameter", &[t, b";q=1"], Invalid));
+    // (4) white space the in-process request keeps (a connection strips the outer blanks: `wire_part`)
+    v.push(one("space-both-sides", &[b" ", t, b" "], Invalid));
+    v.push(one("two-trailing-spaces", &[t, b"  "], Invalid));
+    v.push(one("trailing-tab", &[t, b"\t"], Invalid));
+    v.push(one("leading-tab", &[b"\t", t], Invalid));
+    v.push(one("inner-space", &[&t[..1], b" ", &t[1..]], Invalid));
+    v.push(one("inner-tab", &[&t[..1], b"\t", &t[1..]], Invalid));
+    v.push(one("empty", &[], Invalid));
+    v.push(one("one-space", &[b" "], Invalid));
+    // (5) bytes beyond ASCII
+    v.push(one("nbsp-suffixed", &[t, "\u{a0}".as_bytes()], Invalid));
+    v.push(one("nbsp-prefixed", &["\u{a0}".as_bytes(), t], Invalid));
+    v.push(one("zero-width-space-suffixed", &[t, "\u{200b}".as_bytes()], Invalid));
+    v.push(one("byte-ff-suffixed", &[t, b"\xff"], Invalid));
+    // (6) the header on several lines: not judged against the text
+    v.push(several("lines:right,right", &[t, t]));
+    if up.as_slice() != t {
+        v.push(several("lines:right,upper-case", &[t, &up]));
+        v.push(several("lines:upper-case,right", &[&up, t]));
+    }
+    let suffixed = [t, b"x".as_slice()].concat();
+    let listed = [other, b", ".as_slice(), t].concat();
+    v.push(several("lines:right,x-suffixed", &[t, &suffixed]));
+    v.push(several("lines:x-suffixed,right", &[&suffixed, t]));
+    v.push(several("lines:right,empty", &[t, b""]));
+    v.push(several("lines:empty,right", &[b"", t]));
+    v.push(several("lines:right,list-right-last", &[t, &listed]));
+    v.push(several("lines:list-right-last,right", &[&listed, t]));
+    v.push(several("lines:right,other", &[t, other]));
+    v.push(several("lines:other,right", &[other, t]));
+    v.push(several("lines:right,right,other", &[t, t, other]));
+    v
+}
+
+/// The table of one of the five headers (none for the key: the property asks for its presence only).
+fn table(h: usize) -> &'static [Nm] {
+    static T: std::sync::OnceLock<Vec<Vec<Nm>>> = std::sync::OnceLock::new();
+    &T.get_or_init(|| {
+        let mut all = vec![];
+        for h in 0..5 {
+            let t = exact_value(h);
+            let mut v = match h {
+                0 => common_near_misses(&t, b"keep-alive", true),
+                1 => common_near_misses(&t, b"h2c", true),
+                2 => common_near_misses(&t, b"8", true),
+                3 => common_near_misses(&t, b"other", true),
+                _ => vec![],
+            };
+            let extra: &[&str] = match h {
+                0 => &["upgrades", "upgrade-insecure-requests", "upgrade; websocket", "upgrade websocket", "up-grade", "upgrade/1.1"],
+                // the long s and the Kelvin sign fold to `s` / `k` under Unicode (not ASCII) case folding
+                1 => &["websocket/13", "websocket, websocket/13", "web-socket", "web socket", "ws", "websocket13", "web\u{17f}ocket", "websoc\u{212a}et"],
+                // numbers that are 13 to a parser but not the value `13`
+                2 => &[
+                    "013", "0013", "00013", "+13", "+013", "-13", "13.0", "13.", "13.00", "1_3", "0x0d", "0xD", "0x13", "0b1101", "015", "0o15", "d", "D",
+                    "13e0", "1.3e1", "1 3", "1\t3", "1,3", "\u{ff11}\u{ff13}", "1\u{ff13}", "\u{661}\u{663}", "13,13", "13, 13", "13;13", "269", "525", "65549",
+                    "4294967309", "113", "130", "131", "1", "14", "12", "7, 8, 13", "v13", "#13", "13\u{b0}", "XIII", "thirteen", "13 ;", "13 #",
+                ],
+                // the dotless i upper-cases to `I` under Unicode case mapping
+                3 => &[
+                    "penguin-v70", "penguin-v", "penguin-v07", "penguin-v7.0", "penguin-v7-rc", "penguin-v8", "penguin-v6", "penguin-v6, penguin-v7",
+                    "penguin-v7, penguin-v6", "penguin_v7", "penguin v7", "penguinv7", "penguin-7", "penguin", "v7", "7", "*", "pengu\u{131}n-v7", "penguin\u{2010}v7",
+                ],
+                _ => &[],
+            };
+            for e in extra {
+                // a literal must not be the wanted value in another case (those are in the common part)
+                assert!(!eq_ci(e.as_bytes(), &t), "literal near miss {e:?} is the wanted value");
+                v.push(lit(e));
+            }
+            assert!(v.len() < usize::from(u8::MAX - V_TABLE));
+            all.push(v);
+        }
+        all
+    })[h]
+}
+
+/// Near misses of the presented pre-shared key (compared byte for byte: another case is another key).
+fn psk_table() -> &'static [Nm] {
+    static T: std::sync::OnceLock<Vec<Nm>> = std::sync::OnceLock::new();
+    T.get_or_init(|| {
+        let mut v = common_near_misses(PSK, b"other", false);
+        v.push(one("first-letter-other-case", &[&[PSK[0] ^ 0x20], &PSK[1..]], Says::Invalid));
+        v.push(one("digit-appended", &[PSK, b"4"], Says::Invalid));
+        v.push(one("first-char-only", &[&PSK[..1]], Says::Invalid));
+        v.push(one("inner-space-doubled", &[b"Correct  PSK-123"], Says::Invalid));
+        v.push(one("inner-space-as-tab", &[b"Correct\tPSK-123"], Says::Invalid));
+        v.push(one("inner-space-dropped", &[b"CorrectPSK-123"], Says::Invalid));
+        v.push(one("high-bit-on-first-byte", &[&[PSK[0] | 0x80], &PSK[1..]], Says::Invalid));
+        v.push(one("bearer-prefixed", &[b"Bearer ", PSK], Says::Invalid));
+        for n in &v {
+            assert!(n.says != Says::Valid && (n.lines.len() > 1 || n.lines[0] != PSK), "PSK near miss {} equals the key", n.name);
+        }
+        assert!(v.len() < usize::from(u8::MAX - P_TABLE));
+        v
+    })
+}
+
+/// What the text says about one header variant (older variants: valid iff the first line is right).
+fn variant_says(h: usize, var: u8) -> Says {
+    if var >= V_TABLE {
+        table(h)[(var - V_TABLE) as usize].says
+    } else if variant_good(var) {
+        Says::Valid
+    } else {
+        Says::Invalid
+    }
+}
+
+fn psk_says(var: u8) -> Says {
+    if var >= P_TABLE {
+        psk_table()[(var - P_TABLE) as usize].says
+    } else if matches!(var, P_EQUAL | P_DUP_GOOD_BAD) {
+        Says::Valid
+    } else {
+        Says::Invalid
+    }
+}
+
+fn vname(h: usize, var: u8) -> String {
+    if var >= V_TABLE { table(h)[(var - V_TABLE) as usize].name.clone() } else { VNAMES[var as usize].to_string() }
+}
+
+fn pname(var: u8) -> String {
+    if var >= P_TABLE { psk_table()[(var - P_TABLE) as usize].name.clone() } else { PNAMES[var as usize].to_string() }
+}
+
 fn psk_values(var: u8) -> Vec<Vec<u8>> {
+    if var >= P_TABLE {
+        return psk_table()[(var - P_TABLE) as usize].lines.clone();
+    }
     let near: Vec<u8> = b"Correct PSK-124".to_vec();
     match var {
         P_ABSENT => vec![],
@@ -389,24 +660,39 @@ impl Case {
             target: TARGETS[self.target as usize].to_string(),
             onup: self.onup,
             headers,
+            open: self.says().contains(&Says::Open),
         }
     }
-    /// Expectation from the descriptor alone (which variant was put where).
-    fn expect_upgrade(&self) -> bool {
-        self.method == 0
+    /// What the text says about each gated header of this case (the PSK only where one is configured).
+    fn says(&self) -> Vec<Says> {
+        let mut v: Vec<Says> = (0..4).map(|h| variant_says(h, self.hv[h])).collect();
+        if self.psk_cfg {
+            v.push(psk_says(self.pv));
+        }
+        v
+    }
+    /// Expectation from the descriptor alone (which variant was put where); `None`: the text is open.
+    fn expect_upgrade(&self) -> Option<bool> {
+        let says = self.says();
+        let rest = self.method == 0
             && matches!(TARGETS[self.target as usize], "/ws" | "/ws?x")
-            && (0..4).all(|h| variant_good(self.hv[h]))
             && self.hv[KEY] != V_ABSENT
-            && (!self.psk_cfg || matches!(self.pv, P_EQUAL | P_DUP_GOOD_BAD))
-            && self.onup
+            && self.onup;
+        if !rest || says.contains(&Says::Invalid) {
+            Some(false)
+        } else if says.contains(&Says::Open) {
+            None
+        } else {
+            Some(true)
+        }
     }
     fn describe(&self) -> String {
         format!(
             "{} {} [{}] psk-presented={} psk-configured={} obfs={} on-upgrade={}",
             METHODS[self.method as usize],
             TARGETS[self.target as usize],
-            (0..5).map(|h| format!("{}:{}", HNAMES[h], VNAMES[self.hv[h] as usize])).collect::<Vec<_>>().join(" "),
-            PNAMES[self.pv as usize],
+            (0..5).map(|h| format!("{}:{}", HNAMES[h], vname(h, self.hv[h]))).collect::<Vec<_>>().join(" "),
+            pname(self.pv),
             self.psk_cfg,
             self.obfs,
             self.onup
@@ -419,6 +705,10 @@ struct Plan {
     base: Vec<([u8; 5], u8)>,
     ext_required: Vec<([u8; 5], u8)>,
     ext_more: Vec<([u8; 5], u8)>,
+    /// every near-miss value of every gated header (and of the presented PSK) on an otherwise exact request
+    near: Vec<([u8; 5], u8)>,
+    /// the same values with the other headers in every exact / case-changed combination (thorough)
+    near_cased: Vec<([u8; 5], u8)>,
 }
 
 fn plan() -> Plan {
@@ -481,7 +771,37 @@ fn plan() -> Plan {
             }
         }
     }
-    Plan { base, ext_required, ext_more }
+    // the near-miss tables: one header (or the presented PSK) off, the rest right
+    let mut near = vec![];
+    let mut near_cased = vec![];
+    let others = |k: usize, skip: Option<usize>| -> [u8; 5] {
+        let mut hv = [V_EXACT; 5];
+        let mut j = 0;
+        for (i, x) in hv.iter_mut().enumerate() {
+            if Some(i) != skip {
+                *x = if (k >> j) & 1 == 0 { V_EXACT } else { V_CASE };
+                j += 1;
+            }
+        }
+        hv
+    };
+    for h in 0..4 {
+        for e in 0..table(h).len() {
+            for k in 0..16 {
+                let mut hv = others(k, Some(h));
+                hv[h] = V_TABLE + e as u8;
+                for p in [P_ABSENT, P_EQUAL] {
+                    (if k == 0 { &mut near } else { &mut near_cased }).push((hv, p));
+                }
+            }
+        }
+    }
+    for e in 0..psk_table().len() {
+        for k in 0..32 {
+            (if k == 0 { &mut near } else { &mut near_cased }).push((others(k, None), P_TABLE + e as u8));
+        }
+    }
+    Plan { base, ext_required, ext_more, near, near_cased }
 }
 
 // ---------------------------------------------------------------------------------------------
@@ -596,7 +916,9 @@ fn oracle(c: &Conc, o: &Obs, twin: &Obs) -> Option<(&'static str, String)> {
         Ok(l) => l,
         Err(e) => return Some(("crash", e.clone())),
     };
-    let want_up = c.reference_upgrade();
+    // where the text is open (a gated header on several lines) either answer is taken, and has to be
+    // coherent: 101 with the prescribed response and a tunnel, or exactly the unknown-path response
+    let want_up = c.upgrade_verdict().unwrap_or(o.status == 101);
     if (o.status == 101) != want_up {
         return Some((
             "iff",
@@ -609,7 +931,7 @@ fn oracle(c: &Conc, o: &Obs, twin: &Obs) -> Option<(&'static str, String)> {
     if o.leaked {
         return Some(("tunnel-leak", "the tunnel task of a never-upgraded connection did not end".into()));
     }
-    let want = c.reference();
+    let want = c.reference_for(want_up);
     if *line != want {
         return Some(("response", format!("response `{line}` but the property prescribes `{want}`")));
     }
@@ -704,12 +1026,19 @@ impl Worker {
             self.rep.case(nontrivial.then(|| fnv(line.as_bytes())));
             // distribution
             self.rep.count(&format!("part/{part}"));
+            if nontrivial && part.starts_with("near-miss") {
+                self.rep.count(match c.upgrade_verdict() {
+                    Some(true) => "near-miss-row/text-says-upgrade",
+                    Some(false) => "near-miss-row/text-says-refuse",
+                    None => "near-miss-row/text-open(model-only)",
+                });
+            }
             self.rep.count(&format!("status/{}", o.status));
             if nontrivial {
                 self.rep.count(if o.status == 101 { "ws-get/upgraded" } else { "ws-get/refused" });
             }
             // (1) the descriptor's expectation and the concrete reference must agree (harness self-check)
-            if case.expect_upgrade() != c.reference_upgrade() {
+            if case.expect_upgrade() != c.upgrade_verdict() {
                 self.rep.fail(
                     FailKind::Model,
                     "harness:reference-vs-descriptor",
@@ -1007,7 +1336,14 @@ fn neighbourhood(methods: &[u8]) -> Vec<Case> {
             cases.push(c);
         }
     }
-    for pv in 0..PNAMES.len() as u8 {
+    for h in 0..4 {
+        for e in 0..table(h).len() as u8 {
+            let mut c = good;
+            c.hv[h] = V_TABLE + e;
+            cases.push(c);
+        }
+    }
+    for pv in (0..PNAMES.len() as u8).chain((0..psk_table().len() as u8).map(|e| P_TABLE + e)) {
         cases.push(Case { pv, ..good });
         cases.push(Case { pv, psk_cfg: false, ..good });
     }
@@ -1089,11 +1425,14 @@ fn backend_part(rep: &mut Report) {
         rep.count("part/with-backend");
         let key = format!("backend: {}", case.describe());
         let served = matches!(c.path(), "/health" | "/version") && !c.cfg.obfs;
-        if c.reference_upgrade() || served {
+        let verdict = c.upgrade_verdict();
+        if verdict == Some(true) || served {
             let want = c.reference();
             if got != want {
                 rep.fail(FailKind::Impl, &key, &format!("with a backend the answer is `{got}`, the property prescribes `{want}`"), c.to_json());
             }
+        } else if verdict.is_none() && got == c.reference_for(true) {
+            // the text is open for this request (a gated header on several lines): upgrading is coherent
         } else {
             if got != twin {
                 rep.fail(
@@ -1172,8 +1511,9 @@ fn wire_part(rep: &mut Report) {
                         .collect()
                 };
                 let got = resp_line(status, &pick(&hs), &body);
-                let want = seen.reference();
-                if got != want {
+                let allowed = seen.acceptable();
+                let want = allowed.join("` or `");
+                if !allowed.contains(&got) {
                     rep.fail(
                         FailKind::Impl,
                         &key,
@@ -1182,7 +1522,9 @@ fn wire_part(rep: &mut Report) {
                     );
                 }
                 let inline = inproc.line.clone().unwrap_or_else(|e| format!("crash {e}"));
-                if inline != want {
+                if inline != got && allowed.contains(&got) {
+                    rep.fail(FailKind::Impl, &format!("in-process-vs-wire {key}"), &format!("in-process `{inline}` but over the wire `{got}`"), seen.to_json());
+                } else if !allowed.contains(&inline) {
                     rep.fail(FailKind::Impl, &format!("in-process {key}"), &format!("in-process `{inline}` vs `{want}`"), seen.to_json());
                 }
             }
@@ -1212,7 +1554,7 @@ fn replay(path: &str) -> i32 {
     }
     println!("implementation {}", o.line.clone().unwrap_or_else(|e| e));
     println!("on {UNKNOWN}          {}", t.line.clone().unwrap_or_else(|e| e));
-    println!("prescribed     {}", c.reference());
+    println!("prescribed     {}", c.acceptable().join("  or (the text leaves repeated lines open)  "));
     println!("tasks spawned  {}", o.spawned);
     match oracle(&c, &o, &t) {
         Some((kind, why)) => {
@@ -1261,7 +1603,9 @@ fn main() {
 {absent,exact,case-changed,near-miss}^5 over connection/upgrade/sec-websocket-version/-protocol/-key x presented x-penguin-psk \
 {absent,equal,case-variant,near-miss,prefix,padded} x PSK configured or not x obfs x OnUpgrade present or not, plus each header alone \
 {empty, duplicated good-then-bad, duplicated bad-then-good} with all other dimensions enumerated, plus further near misses \
-(padded, list form, high bit, prefix); non-trivial = a GET whose target routes to ws_handler (gets past the path and method tests); \
+(padded, list form, high bit, prefix), plus the near-miss value tables of connection/upgrade/sec-websocket-version/-protocol and of the \
+presented x-penguin-psk (numeric look-alikes of 13, the token with something before/after/inside it, list forms, other case, white space, \
+non-ASCII look-alikes, the header on several lines) each on an otherwise valid request; non-trivial = a GET whose target routes to ws_handler (gets past the path and method tests); \
 distinct by request and configuration";
     let mut rep = Report::new("gate", &args, rule);
     let threads = std::thread::available_parallelism().map_or(4, |n| n.get()).min(32);
@@ -1275,6 +1619,11 @@ distinct by request and configuration";
     matrix_part(&args, &mut rep, &p.base, "base", 1, 0, threads);
     matrix_part(&args, &mut rep, &p.ext_required, "one-header-empty-or-duplicated", stride, offset, threads);
     matrix_part(&args, &mut rep, &p.ext_more, "one-header-more-near-misses", 1, 0, threads);
+    // both tiers: every table value with the other headers exact; thorough: also with them case-changed
+    matrix_part(&args, &mut rep, &p.near, "near-miss-values", 1, 0, threads);
+    if full {
+        matrix_part(&args, &mut rep, &p.near_cased, "near-miss-values-others-case-changed", 1, 0, threads);
+    }
     let per_combo = 2 * 2 * 2 * METHODS.len() * TARGETS.len();
     rep.exhaustive = full && !rep.has_failures();
     rep.notes.push(format!(
@@ -1285,6 +1634,21 @@ distinct by request and configuration";
         p.ext_more.len(),
         if full { "completely".to_string() } else { format!("1 in {stride} (quick)") }
     ));
+    {
+        let tally = |t: &[Nm]| {
+            let n = |s: Says| t.iter().filter(|e| e.says == s).count();
+            format!("{} ({} valid by the text / {} invalid / {} on several lines, model comparison only)", t.len(), n(Says::Valid), n(Says::Invalid), n(Says::Open))
+        };
+        rep.notes.push(format!(
+            "near-miss value tables: {}; x-penguin-psk {}; {} combinations with the other headers exact (both tiers) + {} with them \
+case-changed ({}), each x {per_combo}",
+            (0..4).map(|h| format!("{} {}", HNAMES[h], tally(table(h)))).collect::<Vec<_>>().join("; "),
+            tally(psk_table()),
+            p.near.len(),
+            p.near_cased.len(),
+            if full { "run" } else { "thorough only" }
+        ));
+    }
     accept_part(&args, &mut rep, &mut rng.fork(2), if full { 10_000 } else { 1_500 });
     wire_part(&mut rep);
     backend_part(&mut rep);
